@@ -66,7 +66,12 @@ func init() {
 		Assume:   []string{boundsAssume, "IBC vouchers are observed only as 'unchanged' (no counterparty chain in the sandbox)"}}
 	run.Props["C18"] = &run.PropSpec{ID: "C18", Level: "fault_enumeration",
 		Rule:     "one evaluation = one block driven through FinalizeBlock+Commit (error / recovered panic recorded by the driver); distinct = (height, AppHash) pairs; base histories x enumerated fault schedules (oracle outages, block-time gaps, parameter-edge governance)",
-		Monitors: func() []mon.Monitor { return []mon.Monitor{mon.NewC18()} },
+		Monitors: func() []mon.Monitor { return []mon.Monitor{mon.NewC18(), mon.NewC18Twin()} },
 		Plan:     plan([]run.PlanItem{pi("rewards", 4), pi("mix", 4), pi("commit-life", 4)}, []run.PlanItem{pi("rewards", 16), pi("mix", 16), pi("commit-life", 16)}),
 		Assume:   []string{boundsAssume}}
+	run.Props["C19"] = &run.PropSpec{ID: "C19", Level: "fault_enumeration",
+		Rule:     "one evaluation = one (replica, block) comparison of AppHash + every tx result (code, data, gas, log, events) + block events as a multiset against the primary; replicas: un-probed plain, restarted after every height, crashed between FinalizeBlock and Commit at every height; distinct = (replica, height, AppHash)",
+		Monitors: func() []mon.Monitor { return []mon.Monitor{mon.NewC19()} },
+		Plan:     plan([]run.PlanItem{pi("replicas", 8)}, []run.PlanItem{pi("replicas", 32)}),
+		Assume:   []string{boundsAssume, "different process-level randomisation is obtained from separate app objects in one process (Go randomises every map range independently)"}}
 }
